@@ -481,7 +481,9 @@ Definition sparse_pre (fl : mm_flags) (vk : kind) (h : header) (row_beg row_end 
   let nnz' := s64 (if h_symmetric h then 2 * nz else nz) in
   _ <- guard (negb (negb ((r0 =? 0) && (r1 =? n))) ||
               (negb (n =? 0) && (0 <=? Z.quot (nnz' * 6 * (r1 - r0)) (5 * n)))) EAlloc ;;
-  _ <- guard (alloc_ok nnz' 8 && alloc_ok nnz' vwidth) EAlloc ;;
+  let cap_arg := if negb ((r0 =? 0) && (r1 =? n)) && (nnz' <? 0)
+                 then Z.quot (nnz' * 6 * (r1 - r0)) (5 * n) else nnz' in
+  _ <- guard (alloc_ok cap_arg 8 && alloc_ok cap_arg vwidth) EAlloc ;;
   _ <- guard (alloc_ok (r1 - r0 + 1) 8) EAlloc ;;
   Ok (n, m, nz, r0, r1).
 
@@ -512,8 +514,8 @@ Proof.
   destruct (negb (negb (((if rb <? 0 then 0 else rb) =? 0) && ((if re <? 0 then n else re) =? n))) ||
             (negb (n =? 0) && (0 <=? Z.quot (s64 (if h_symmetric h then 2 * nz else nz) * 6 *
                                         ((if re <? 0 then n else re) - (if rb <? 0 then 0 else rb))) (5 * n)))); cbn [guard bind]; [|reflexivity].
-  destruct (alloc_ok (s64 (if h_symmetric h then 2 * nz else nz)) 8 &&
-            alloc_ok (s64 (if h_symmetric h then 2 * nz else nz)) vwidth); cbn [guard bind]; [|reflexivity].
+  match goal with |- context [guard (alloc_ok ?c 8 && alloc_ok ?c vwidth) EAlloc] =>
+    destruct (alloc_ok c 8 && alloc_ok c vwidth) end; cbn [guard bind]; [|reflexivity].
   destruct (alloc_ok ((if re <? 0 then n else re) - (if rb <? 0 then 0 else rb) + 1) 8);
     cbn [guard bind]; [|reflexivity].
   reflexivity.
@@ -529,8 +531,12 @@ Definition pre_facts (fl : mm_flags) (vk : kind) (h : header) (rb re n m nz r0 r
   (0 <=? r0) && (r1 <=? n) = true /\
   negb (chk_range fl) || (r0 <=? r1) = true /\
   negb (chk_index fl) || negb (h_symmetric h) || (n =? m) = true /\
-  alloc_ok (s64 (if h_symmetric h then 2 * nz else nz)) 8 &&
-    alloc_ok (s64 (if h_symmetric h then 2 * nz else nz)) vwidth = true /\
+  alloc_ok (if negb ((r0 =? 0) && (r1 =? n)) && (s64 (if h_symmetric h then 2 * nz else nz) <? 0)
+     then Z.quot (s64 (if h_symmetric h then 2 * nz else nz) * 6 * (r1 - r0)) (5 * n)
+     else s64 (if h_symmetric h then 2 * nz else nz)) 8 &&
+    alloc_ok (if negb ((r0 =? 0) && (r1 =? n)) && (s64 (if h_symmetric h then 2 * nz else nz) <? 0)
+     then Z.quot (s64 (if h_symmetric h then 2 * nz else nz) * 6 * (r1 - r0)) (5 * n)
+     else s64 (if h_symmetric h then 2 * nz else nz)) vwidth = true /\
   alloc_ok (r1 - r0 + 1) 8 = true /\
   negb (negb ((r0 =? 0) && (r1 =? n))) ||
     (negb (n =? 0) && (0 <=? Z.quot (s64 (if h_symmetric h then 2 * nz else nz) * 6 * (r1 - r0)) (5 * n))) = true.
@@ -554,8 +560,8 @@ Proof.
     destruct (negb (negb (((if rb <? 0 then 0 else rb) =? 0) && ((if re <? 0 then n' else re) =? n'))) ||
             (negb (n' =? 0) && (0 <=? Z.quot (s64 (if h_symmetric h then 2 * nz' else nz') * 6 *
                                         ((if re <? 0 then n' else re) - (if rb <? 0 then 0 else rb))) (5 * n')))) eqn:E6; cbn [guard bind]; [|discriminate].
-    destruct (alloc_ok (s64 (if h_symmetric h then 2 * nz' else nz')) 8 &&
-              alloc_ok (s64 (if h_symmetric h then 2 * nz' else nz')) vwidth) eqn:E4; cbn [guard bind]; [|discriminate].
+    match goal with |- context [guard (alloc_ok ?c 8 && alloc_ok ?c vwidth) EAlloc] =>
+      destruct (alloc_ok c 8 && alloc_ok c vwidth) eqn:E4 end; cbn [guard bind]; [|discriminate].
     destruct (alloc_ok ((if re <? 0 then n' else re) - (if rb <? 0 then 0 else rb) + 1) 8) eqn:E5;
       cbn [guard bind]; [|discriminate].
     intros H. inversion H; subst; clear H.
@@ -585,8 +591,8 @@ Proof.
   destruct (negb (negb (((if rb <? 0 then 0 else rb) =? 0) && ((if re <? 0 then n' else re) =? n'))) ||
             (negb (n' =? 0) && (0 <=? Z.quot (s64 (if h_symmetric h then 2 * nz' else nz') * 6 *
                                         ((if re <? 0 then n' else re) - (if rb <? 0 then 0 else rb))) (5 * n')))); cbn [guard bind]; [|congruence].
-  destruct (alloc_ok (s64 (if h_symmetric h then 2 * nz' else nz')) 8 &&
-            alloc_ok (s64 (if h_symmetric h then 2 * nz' else nz')) vwidth); cbn [guard bind]; [|congruence].
+  match goal with |- context [guard (alloc_ok ?c 8 && alloc_ok ?c vwidth) EAlloc] =>
+    destruct (alloc_ok c 8 && alloc_ok c vwidth) end; cbn [guard bind]; [|congruence].
   destruct (alloc_ok ((if re <? 0 then n' else re) - (if rb <? 0 then 0 else rb) + 1) 8);
     cbn [guard bind]; congruence.
 Qed.
@@ -868,6 +874,9 @@ Proof.
   apply sparse_pre_ok_iff in P.
   destruct P as (F1 & F2 & F3 & (t1 & t2 & t3 & R1 & R2 & R3) & Hq0 & Hq1 & E1 & E2 & E3 & E4 & E5 & _).
   change (-1 <? 0) with true in Hq0, Hq1. cbv iota in Hq0, Hq1. subst q0 q1.
+  rewrite !Z.eqb_refl in E4. cbn [andb negb] in E4.
+  assert (Hnn : 0 <= s64 (if h_symmetric h then 2 * nz else nz)).
+  { apply andb_true_iff in E4. destruct E4 as [E4 _]. clear - E4. unfold alloc_ok in E4. lia. }
   unfold sparse_post in H.
   destruct (read_entries V vread fl (h_symmetric h) n m 0 n (h_body h) nz
               (repeat [] (Z.to_nat (n - 0)))) as [[st rest]|e] eqn:R; cbn [bind] in H; [|discriminate].
@@ -881,11 +890,10 @@ Proof.
     - exists t1, t2, t3. auto.
     - clear - H0 H1 H2. lia.
     - clear - H1. destruct (chk_range fl); simpl; lia.
+    - replace (s64 (if h_symmetric h then 2 * nz else nz) <? 0) with false by (clear - Hnn; lia).
+      rewrite andb_false_r. exact E4.
     - clear - E5 H0 H1 H2. unfold alloc_ok in *. lia.
-    - apply andb_true_iff in E4. destruct E4 as [E4 _].
-      assert (Hnn : 0 <= s64 (if h_symmetric h then 2 * nz else nz))
-        by (clear - E4; unfold alloc_ok in E4; lia).
-      destruct ((r0 =? 0) && (r1 =? n)) eqn:Efull; [reflexivity|].
+    - destruct ((r0 =? 0) && (r1 =? n)) eqn:Efull; [reflexivity|].
       assert (Hpos : 0 < n) by (clear - Efull H0 H1 H2; lia).
       cbn [negb orb]. apply andb_true_iff. split; [clear - Hpos; lia|].
       apply Z.leb_le. apply Z.quot_pos; [|clear - Hpos; lia].
@@ -1024,7 +1032,7 @@ Proof.
     - clear - Hn. destruct (chk_range fl); simpl; lia.
     - clear - Hs. destruct (chk_index fl); [|reflexivity]. destruct symm; [|reflexivity].
       simpl. specialize (Hs eq_refl). lia.
-    - rewrite A1, A2. reflexivity.
+    - rewrite !Z.eqb_refl. cbn [andb negb]. rewrite A1, A2. reflexivity.
     - rewrite Z.sub_0_r. exact A3.
     - rewrite !Z.eqb_refl. reflexivity. }
   rewrite P. cbn [bind]. unfold sparse_post. cbn [h_symmetric h_body].
@@ -1624,14 +1632,8 @@ Proof.
     + apply IH; [exact Hv'|lia].
 Qed.
 
-(* FULL STATEMENT (unproved):
-   Theorem mm_readd_write_roundtrip : forall fl k nr nc (data : list V),
-     0 <= nr < two63 -> 0 <= nc < two63 -> List.length data = Z.to_nat (nr * nc) ->
-     alloc_ok (nr * nc) vwidth = true ->
-     exists f, mm_write_dense V vprint k nr nc data = Ok f /\
-               mm_readd V vwidth vread fl k f (-1) (-1) = Ok (mkDense V nr nc (map Some data)).
-   What is missing is the transposition argument (column-major file order vs row-major
-   storage: every cell p < nr*nc is written exactly once, with data[p]). *)
+(* shape-only version (used for the empty-matrix case of the full theorem
+   [mm_readd_write_roundtrip] below) *)
 Theorem mm_readd_write_roundtrip_partial : forall fl k nr nc (data : list V),
   0 <= nr < two63 -> 0 <= nc < two63 -> List.length data = Z.to_nat (nr * nc) ->
   alloc_ok (nr * nc) vwidth = true ->
@@ -1767,6 +1769,147 @@ Proof.
     rewrite (IH (q + 1)) by lia. rewrite <- app_assoc. reflexivity.
 Qed.
 End RoundTripDenseFull.
+
+Lemma map_seq_shift : forall (B : Type) (h : nat -> B) k s,
+  map h (seq s k) = map (fun i => h (s + i)%nat) (seq 0 k).
+Proof.
+  intros B h k. induction k as [|k IH]; intros s; [reflexivity|].
+  cbn [seq map]. f_equal; [f_equal; lia|].
+  rewrite (IH (S s)). rewrite <- seq_shift, map_map. apply map_ext. intros i. f_equal. lia.
+Qed.
+
+Lemma flat_map_seq_grid : forall (B : Type) (F : nat -> nat -> B) a b,
+  flat_map (fun j => map (F j) (seq 0 a)) (seq 0 b)
+  = map (fun c => F (c / a)%nat (c mod a)%nat) (seq 0 (b * a)).
+Proof.
+  intros B F a b. induction b as [|b IH]; [reflexivity|].
+  rewrite seq_S, flat_map_app, IH. cbn [flat_map]. rewrite app_nil_r.
+  replace (S b * a)%nat with (b * a + a)%nat by lia. rewrite seq_app, map_app. f_equal.
+  cbn [Nat.add]. rewrite (map_seq_shift _ _ a (b * a)). apply map_ext_in.
+  intros i Hi. apply in_seq in Hi.
+  assert (Hd : ((b * a + i) / a = b)%nat) by (symmetry; apply (Nat.div_unique _ _ _ i); lia).
+  assert (Hm : ((b * a + i) mod a = i)%nat) by (symmetry; apply (Nat.mod_unique _ _ b i); lia).
+  rewrite Hd, Hm. reflexivity.
+Qed.
+
+Lemma write_body_eq : forall (data : list V) (d : V) idxs,
+  (forall idx, In idx idxs -> 0 <= idx < Z.of_nat (List.length data)) ->
+  fold_right (fun idx acc => a <- acc ;; v <- of_opt (dense_get V data idx) EOOB ;;
+                             Ok (mkLine false (vprint v) :: a)) (Ok []) idxs
+  = Ok (map (fun idx => mkLine false (vprint (nth (Z.to_nat idx) data d))) idxs).
+Proof.
+  intros data d idxs. induction idxs as [|idx idxs IH]; intros H; [reflexivity|].
+  cbn [fold_right map]. rewrite IH by (intros; apply H; right; assumption). cbn [bind].
+  specialize (H idx (or_introl eq_refl)).
+  unfold dense_get. replace (idx <? 0) with false by lia.
+  rewrite (nth_error_nth' data d) by lia. reflexivity.
+Qed.
+
+Section RoundTripDenseFull2.
+Hypothesis vread_vprint : forall v rest, vread (vprint v ++ rest) = Some (v, rest).
+
+Theorem mm_readd_write_roundtrip : forall fl k nr nc (data : list V),
+  0 <= nr < two63 -> 0 <= nc < two63 -> List.length data = Z.to_nat (nr * nc) ->
+  alloc_ok (nr * nc) vwidth = true ->
+  exists f, mm_write_dense V vprint k nr nc data = Ok f /\
+            mm_readd V vwidth vread fl k f (-1) (-1) = Ok (mkDense V nr nc (map Some data)).
+Proof.
+  intros fl k nr nc data Hnr Hnc Hlen Ha.
+  assert (Hprod : 0 <= nr * nc) by (apply Z.mul_nonneg_nonneg; lia).
+  destruct data as [|d0 data0].
+  { (* empty matrix *)
+    assert (Hz : nr * nc = 0) by (simpl in Hlen; lia).
+    destruct (mm_readd_write_roundtrip_partial vread_vprint fl k nr nc [] Hnr Hnc Hlen Ha)
+      as (f & cells & W & R & L).
+    exists f. split; [exact W|]. rewrite R. rewrite Hz in L. destruct cells; [reflexivity|discriminate]. }
+  assert (Hne : (0 < List.length (d0 :: data0))%nat) by (simpl; lia).
+  remember (d0 :: data0) as data eqn:Hdata. clear Hdata data0.
+  set (g := fun p : nat => nth p data d0).
+  set (cnt := (Z.to_nat nc * Z.to_nat nr)%nat).
+  assert (Hcnt : Z.of_nat cnt = nr * nc) by (unfold cnt; lia).
+  assert (Hpos : 0 < nr /\ 0 < nc).
+  { assert (0 < nr * nc) by lia. clear - H Hnr Hnc. nia. }
+  (* the index list of the writer, position by position *)
+  assert (Hidx : flat_map (fun j => map (fun i => Z.of_nat i * nc + Z.of_nat j) (seq 0 (Z.to_nat nr)))
+                          (seq 0 (Z.to_nat nc))
+                 = map (fun c => Z.of_nat (tidx nr nc (Z.of_nat c))) (seq 0 cnt)).
+  { rewrite (flat_map_seq_grid Z (fun j i => Z.of_nat i * nc + Z.of_nat j)). fold cnt.
+    apply map_ext_in. intros c Hc. apply in_seq in Hc. unfold tidx.
+    rewrite Nat2Z.inj_mod, Nat2Z.inj_div. rewrite (Z2Nat.id nr) by lia.
+    assert (0 <= Z.of_nat c mod nr < nr) by (apply Z.mod_pos_bound; lia).
+    assert (0 <= Z.of_nat c / nr) by (apply Z.div_pos; lia).
+    rewrite Z2Nat.id; [reflexivity|]. apply Z.add_nonneg_nonneg; [apply Z.mul_nonneg_nonneg; lia|lia]. }
+  assert (Htidx : forall c, (c < cnt)%nat -> (tidx nr nc (Z.of_nat c) < cnt)%nat).
+  { intros c Hc. unfold tidx.
+    assert (0 <= Z.of_nat c mod nr < nr) by (apply Z.mod_pos_bound; lia).
+    assert (0 <= Z.of_nat c / nr) by (apply Z.div_pos; lia).
+    assert (Z.of_nat c / nr < nc) by (apply Z.div_lt_upper_bound; lia).
+    assert (Z.of_nat c mod nr * nc <= (nr - 1) * nc) by (apply Z.mul_le_mono_nonneg_r; lia).
+    assert (0 <= Z.of_nat c mod nr * nc) by (apply Z.mul_nonneg_nonneg; lia). lia. }
+  unfold mm_write_dense. rewrite Hidx.
+  rewrite (write_body_eq data d0).
+  2:{ intros idx Hin. apply in_map_iff in Hin. destruct Hin as (c & <- & Hc). apply in_seq in Hc.
+      specialize (Htidx c ltac:(lia)). lia. }
+  cbn [bind]. eexists. split; [reflexivity|].
+  rewrite map_map.
+  rewrite (map_ext _ (fun c => dline g nr nc (0 + Z.of_nat c))).
+  2:{ intros c. unfold dline, g. rewrite Nat2Z.id. reflexivity. }
+  unfold mm_readd. rewrite mm_open_gen_dense by (clear - Hnr Hnc; unfold two63, two64 in *; lia).
+  cbn [bind]. unfold mm_read_dense. cbn [h_sparse h_kind h_size h_body negb guard bind].
+  rewrite !Bool.eqb_reflx. cbn [guard bind].
+  rewrite read_int_print_signed by (clear - Hnr; unfold two63 in *; lia). cbn [of_opt bind].
+  rewrite read_int_print_signed by (clear - Hnc; unfold two63 in *; lia). cbn [of_opt bind].
+  cbv zeta. change (-1 <? 0) with true. cbv iota.
+  replace ((0 <=? 0) && (nr <=? nr)) with true by (clear; lia). cbn [guard bind].
+  replace (negb (chk_range fl) || (0 <=? nr)) with true
+    by (clear - Hnr; destruct (chk_range fl); simpl; lia). cbn [guard bind].
+  rewrite Z.sub_0_r. rewrite Ha. cbn [guard bind].
+  replace ((0 <? nc) && (0 <? nr)) with true by (clear - Hpos; lia).
+  rewrite (read_dense_lines_gen vread_vprint g nr nc cnt 0 []) by lia.
+  cbn [bind forallb Datatypes.app]. rewrite orb_true_r. cbn [guard bind].
+  set (es := map (fun c => dent g nr nc (0 + Z.of_nat c)) (seq 0 cnt)).
+  assert (Hok : dense_ok nr nc es).
+  { unfold dense_ok, es. apply Forall_forall. intros [[i j] x] Hin. apply in_map_iff in Hin.
+    destruct Hin as (c & He & Hc). apply in_seq in Hc. unfold dent in He. inversion He; subst; clear He.
+    cbn [Z.add]. split; [apply Z.mod_pos_bound; lia|].
+    split; [apply Z.div_pos; lia|apply Z.div_lt_upper_bound; lia]. }
+  destruct (dense_fill_ok nr nc es (repeat None (Z.to_nat (nr * nc))) Hok) as (v & Ev & Hv).
+  { apply repeat_length. }
+  rewrite Ev. cbn [bind]. f_equal.
+  unfold u64. rewrite Z.mod_small by (clear - Hnc; unfold two63, two64 in *; lia). f_equal.
+  rewrite repeat_length in Hv.
+  assert (Hcons : Forall (fun '(i, j, x) => x = g (Z.to_nat (i * nc + j))) es).
+  { unfold es. apply Forall_forall. intros [[i j] x] Hin. apply in_map_iff in Hin.
+    destruct Hin as (c & He & _). unfold dent in He. inversion He; subst. reflexivity. }
+  pose proof (dense_fill_spec g nc es _ v Ev Hcons) as Hspec.
+  apply nth_error_ext. intros p. rewrite Hspec.
+  destruct (Nat.lt_ge_cases p cnt) as [Hp|Hp].
+  - (* cell p is written: by line q = (p mod nc) * nr + p / nc *)
+    assert (Hhit : existsb (fun '(i, j, _) => Nat.eqb (Z.to_nat (i * nc + j)) p) es = true).
+    { apply existsb_exists.
+      set (P := Z.of_nat p).
+      assert (0 <= P mod nc < nc) by (apply Z.mod_pos_bound; lia).
+      assert (0 <= P / nc) by (apply Z.div_pos; lia).
+      assert (P / nc < nr) by (apply Z.div_lt_upper_bound; unfold P; lia).
+      set (q := P mod nc * nr + P / nc).
+      assert (Hq0 : 0 <= q) by (unfold q; apply Z.add_nonneg_nonneg; [apply Z.mul_nonneg_nonneg; lia|lia]).
+      assert (Hq1 : q < nr * nc).
+      { assert (P mod nc * nr <= (nc - 1) * nr) by (apply Z.mul_le_mono_nonneg_r; lia). unfold q. lia. }
+      exists (dent g nr nc (0 + Z.of_nat (Z.to_nat q))). split.
+      - unfold es. apply in_map_iff. exists (Z.to_nat q). split; [reflexivity|apply in_seq; lia].
+      - unfold dent. rewrite Z2Nat.id by lia. cbn [Z.add]. apply Nat.eqb_eq.
+        assert (Hqm : q mod nr = P / nc).
+        { unfold q. rewrite Z.add_comm, Z_mod_plus_full. apply Z.mod_small. lia. }
+        assert (Hqd : q / nr = P mod nc).
+        { unfold q. rewrite Z.div_add_l by lia. rewrite (Z.div_small (P / nc) nr) by lia. lia. }
+        rewrite Hqm, Hqd. rewrite (Z.mul_comm (P / nc) nc). rewrite <- Z.div_mod by lia.
+        unfold P. apply Nat2Z.id. }
+    rewrite Hhit. rewrite nth_error_map. rewrite (nth_error_nth' data d0) by lia. reflexivity.
+  - (* outside: both lists have length cnt *)
+    assert (N1 : nth_error v p = None) by (apply nth_error_None; lia).
+    rewrite <- Hspec, N1. symmetry. apply nth_error_None. rewrite map_length. lia.
+Qed.
+End RoundTripDenseFull2.
 
 End MMProofs.
 
